@@ -297,8 +297,10 @@ int main(int argc, char **argv) {
         unsigned long cases = 0, bad = 0, multi = 0;
         printf("{\"failures\":[");
         for (PW = 1; PW <= wmax; PW++) for (PH = 1; PH <= hmax; PH++)
-            for (COLS = 1; COLS <= PW && COLS <= ENCDEC_SEGMENTS_MAX_COL_COUNT; COLS++)
-                for (ROWS = 1; ROWS <= PH && ROWS <= ENCDEC_SEGMENTS_MAX_ROW_COUNT; ROWS++) {
+            /* requested grids up to 2 beyond the picture in each direction: the initialiser clamps the request to the picture (the
+             * encoder requests one grid per sequence and applies it to every tile group, the last of which may be smaller) */
+            for (COLS = 1; COLS <= PW + 2 && COLS <= ENCDEC_SEGMENTS_MAX_COL_COUNT; COLS++)
+                for (ROWS = 1; ROWS <= PH + 2 && ROWS <= ENCDEC_SEGMENTS_MAX_ROW_COUNT; ROWS++) {
                     if (PW * PH > MAXSB) continue;
                     (void)reach;
                     setup();
